@@ -227,8 +227,9 @@ impl W16 {
 }
 
 /// advance_s: seconds the block time moves before the call; pre_epochs: number of (one day passes, someone calls the distributor's NewEpoch) rounds before it
-pub struct Payload { pub variant: &'static str, pub k: usize, pub msg: Value, pub funds: Vec<Coin>, pub advance_s: u64, pub pre_epochs: u32 }
-fn p(variant: &'static str, k: usize, msg: Value, funds: Vec<Coin>) -> Payload { Payload { variant, k, msg, funds, advance_s: 0, pre_epochs: 0 } }
+/// pre: a message the current owner of another contract sends before the call (part of the world's preparation, the same for every caller)
+pub struct Payload { pub variant: &'static str, pub k: usize, pub msg: Value, pub funds: Vec<Coin>, pub advance_s: u64, pub pre_epochs: u32, pub pre: Option<(C, Value)> }
+fn p(variant: &'static str, k: usize, msg: Value, funds: Vec<Coin>) -> Payload { Payload { variant, k, msg, funds, advance_s: 0, pre_epochs: 0, pre: None } }
 
 const DAY_S: u64 = 86_400;
 
@@ -248,7 +249,7 @@ pub fn payloads(x: &W16, c: C, a: &Addr) -> Vec<Payload> {
                 }
             }
         }
-        if changed && pl.variant == "UpdateConfig" { extra.push(Payload { variant: pl.variant, k: 2, msg, funds: pl.funds.clone(), advance_s: pl.advance_s, pre_epochs: pl.pre_epochs }); }
+        if changed && pl.variant == "UpdateConfig" { extra.push(Payload { variant: pl.variant, k: 2, msg, funds: pl.funds.clone(), advance_s: pl.advance_s, pre_epochs: pl.pre_epochs, pre: pl.pre.clone() }); }
     }
     v.extend(extra);
     v
@@ -299,6 +300,9 @@ fn payloads_fixed(x: &W16, c: C, a: &Addr) -> Vec<Payload> {
             p("AssertMinimumReceive", 0, json!({"assert_minimum_receive": {"asset_info": nat("uwhale"), "prev_balance": "0", "minimum_receive": "1", "receiver": me}}), vec![]),
             p("AddSwapRoutes", 0, json!({"add_swap_routes": {"swap_routes": [{"offer_asset_info": nat("uusdc"), "ask_asset_info": nat("uwhale"), "swap_operations": [op("uusdc", "uwhale")]}]}}), vec![]),
             p("RemoveSwapRoutes", 0, json!({"remove_swap_routes": {"swap_routes": [{"offer_asset_info": nat("uwhale"), "ask_asset_info": nat("uusdc"), "swap_operations": [op("uwhale", "uusdc")]}]}}), vec![]),
+            // the same removal after the pool factory has dropped the pair the stored route goes through (a stale route)
+            Payload { pre: Some((C::Factory, json!({"remove_pair": {"asset_infos": [nat("uusdc"), nat("uwhale")]}}))),
+                      ..p("RemoveSwapRoutes", 3, json!({"remove_swap_routes": {"swap_routes": [{"offer_asset_info": nat("uwhale"), "ask_asset_info": nat("uusdc"), "swap_operations": [op("uwhale", "uusdc")]}]}}), vec![]) },
         ],
         C::Incentive => vec![
             Payload { advance_s: DAY_S + 1, ..p("TakeGlobalWeightSnapshot", 0, json!({"take_global_weight_snapshot": {}}), vec![]) },
@@ -440,6 +444,11 @@ pub fn run_cell(out: &mut Out, phase: u8, c: C, variant: &str, k: usize, who: Wh
         let inc = x.w.incentive.clone();
         let _ = exec_json(&mut x.w.app, &Addr::unchecked(BOB), &inc, &json!({"take_global_weight_snapshot": {}}), &[]);
     }
+    if let Some((pc, pmsg)) = &pl.pre {
+        let owner = x.who_addr(*pc, "", owner_who(*pc, phase));
+        let target = x.addr(*pc);
+        if exec_json(&mut x.w.app, &owner, &target, pmsg, &[]).is_err() { out.count("pre_message_failed"); }
+    }
     if pl.advance_s > 0 { x.w.app.update_block(|b| { b.time = b.time.plus_seconds(pl.advance_s); b.height += pl.advance_s / 5; }); }
     let before = full_snapshot(&x);
     let target = x.addr(c);
@@ -541,6 +550,13 @@ pub fn run(args: &Args) {
             out.finish();
             std::process::exit(if missing.is_empty() { 0 } else { 1 });
         }
+        if f["kind"] == "nested_call" {
+            probe_nested_calls(&mut out);
+            for f in &out.monitor_failures { println!("MONITOR-FAIL {}", f["what"]); }
+            let failed = !out.monitor_failures.is_empty();
+            out.finish();
+            std::process::exit(if failed { 1 } else { 0 });
+        }
         if f["kind"] == "ownership_history" { let ok = replay_history(&mut out, f); out.finish(); std::process::exit(if ok { 0 } else { 1 }); }
         let (phase, c, variant, k, who) = (f["phase"].as_u64().unwrap() as u8, parse_c(f["contract"].as_str().unwrap()), f["variant"].as_str().unwrap().to_string(),
             f["payload"].as_u64().unwrap() as usize, parse_who(f["caller"].as_str().unwrap()));
@@ -558,6 +574,7 @@ pub fn run(args: &Args) {
     let mut rng = Rng::new(args.seed);
     SEED.store(args.seed, std::sync::atomic::Ordering::Relaxed);
     probe_router_without_admin(&mut out);
+    probe_nested_calls(&mut out);
     // 0. the ownership transfers the later phases rely on must be possible for the owner
     for ph in [1u8, 2u8] {
         let x = world16(ph);
@@ -639,6 +656,77 @@ fn probe_router_without_admin(out: &mut Out) {
     let router = w.app.instantiate_contract(w.codes.router, admin(), &white_whale_std::pool_network::router::InstantiateMsg { terraswap_factory: w.factory.to_string() }, &[], "router_noadmin", None).unwrap();
     let r = exec_json(&mut w.app, &Addr::unchecked(STRANGER), &router, &json!({"add_swap_routes": {"swap_routes": [{"offer_asset_info": nat("uwhale"), "ask_asset_info": nat("uusdc"), "swap_operations": [op("uwhale", "uusdc")]}]}}), &[]);
     out.count(if r.is_ok() { "info:router_without_wasm_admin:stranger_add_route_accepted" } else { "info:router_without_wasm_admin:stranger_add_route_rejected" });
+}
+
+// ---- self-only / designated-contract variants called from INSIDE a running flash loan -----------------------------------------
+// The matrix above calls every variant as a stand-alone transaction. The vault's Callback and the vault router's NextLoan /
+// CompleteLoan exist to be called in the middle of a loan, so a borrower contract also tries them from the callback it receives
+// while its loan is outstanding (directly from the vault, and through the router): the attempt must fail the transaction, and,
+// when the borrower catches the failure, must leave no trace (state and balances equal to the same loan without the attempt).
+fn probe_nested_calls(out: &mut Out) {
+    use crate::w_vault as wv;
+    use cosmwasm_std::Uint128;
+    for cw20 in [false, true] {
+        let fees = (10_000_000_000_000_000u128, 3_000_000_000_000_000u128, if cw20 { 2_000_000_000_000_000u128 } else { 0 });
+        let fresh = || -> wv::VaultWorld {
+            let mut w = wv::deploy(cw20, fees, [1_000_000_000, 5_000_000_000, 5_000_000_000, 5_000_000_000, 2_000_000_000]).expect("vault world");
+            let code = w.exec(&wv::Op::Deposit { u: 6, amount: Uint128::new(3_000_000_000), sent: Uint128::new(3_000_000_000) });
+            assert_eq!(code, 0, "probe deposit");
+            w
+        };
+        let loan = 700_000_000u128;
+        let probe = fresh();
+        let (vault, router, adv) = (probe.vault.to_string(), probe.router.to_string(), probe.adv.to_string());
+        let asset_json = serde_json::to_value(&probe.asset).unwrap();
+        let bal = probe.asset_bal(probe.vault.as_str());
+        let attempts: Vec<(&str, String, Value)> = vec![
+            ("vault Callback(AfterTrade{0,0})", vault.clone(), json!({"callback": {"after_trade": {"old_balance": "0", "loan_amount": "0"}}})),
+            ("vault Callback(AfterTrade{balance,loan})", vault.clone(), json!({"callback": {"after_trade": {"old_balance": bal.to_string(), "loan_amount": loan.to_string()}}})),
+            ("router CompleteLoan{[]}", router.clone(), json!({"complete_loan": {"initiator": adv, "loaned_assets": []}})),
+            ("router CompleteLoan{[vault]}", router.clone(), json!({"complete_loan": {"initiator": adv, "loaned_assets": [[vault, {"info": asset_json, "amount": loan.to_string()}]]}})),
+            ("router NextLoan", router.clone(), json!({"next_loan": {"initiator": adv, "source_vault": vault, "source_vault_asset_info": asset_json, "payload": [], "to_loan": [], "loaned_assets": []}})),
+        ];
+        let raw = |x: &wv::VaultWorld| -> Vec<(String, Vec<(Vec<u8>, Vec<u8>)>)> {
+            vec![("vault".to_string(), x.app.dump_wasm_raw(&x.vault)), ("router".to_string(), x.app.dump_wasm_raw(&x.router)), ("lp".to_string(), x.app.dump_wasm_raw(&x.lp))]
+        };
+        for via_router in [false, true] {
+            // control: the same loan, repaid as quoted, without the attempt
+            let mut ctl = fresh();
+            let wrap = |inner: Vec<wv::Act>| -> wv::Op {
+                if via_router { wv::Op::RouterLoan { u: 7, amount: Uint128::new(loan), pre: Uint128::new(loan), script: inner } }
+                else { wv::Op::Run { script: vec![wv::Act::Loan { amount: Uint128::new(loan), script: inner }] } }
+            };
+            // through the router the borrower must hand the loan plus fees back to the router; directly it repays the vault's quote
+            let settle = |x: &wv::VaultWorld| -> wv::Act {
+                if via_router { let q = x.payback(loan).map(|p| p.0).unwrap_or(loan); wv::Act::Pay { to: wv::I_ROUTER, amount: Uint128::new(q) } }
+                else { wv::Act::RepayQ { neg: false, delta: Uint128::zero() } }
+            };
+            let s = settle(&ctl);
+            let c0 = ctl.exec(&wrap(vec![s.clone()]));
+            if c0 != 0 { out.count("nested:control_loan_failed"); continue; }
+            let (ctl_dump, ctl_raw) = (ctl.dump(), raw(&ctl));
+            for (name, target, msg) in &attempts {
+                let act = wv::Act::Raw { target: target.clone(), msg: Binary::from(serde_json::to_vec(msg).unwrap()) };
+                let replay = json!({"kind": "nested_call", "vault_asset_cw20": cw20, "through_router": via_router, "attempt": name, "message": msg, "loan": loan.to_string()});
+                // (a) uncaught: the whole transaction must fail and change nothing
+                let mut a = fresh();
+                let (d0, r0) = (a.dump(), raw(&a));
+                let code = a.exec(&wrap(vec![act.clone(), s.clone()]));
+                out.monitor_evals += 1;
+                out.count(&format!("nested:{}:{}", if via_router { "router_loan" } else { "direct_loan" }, if code == 0 { "accepted" } else { "rejected" }));
+                if code == 0 { out.monitor_fail("C16", &format!("{} sent by the borrower from inside its running loan was accepted", name), replay.clone()); }
+                else if a.dump() != d0 || raw(&a) != r0 { out.monitor_fail("C16", &format!("rejected nested {} changed state", name), replay.clone()); }
+                // (b) caught by the borrower: the loan completes exactly as it does without the attempt
+                let mut b = fresh();
+                let code = b.exec(&wrap(vec![wv::Act::Try { script: vec![act.clone()] }, s.clone()]));
+                out.monitor_evals += 1;
+                if code != 0 { out.monitor_fail("C16", &format!("a caught nested {} made the loan fail", name), replay.clone()); }
+                else if b.dump() != ctl_dump || raw(&b) != ctl_raw {
+                    out.monitor_fail("C16", &format!("{} sent from inside a running loan (failure caught by the sender) left a trace: state differs from the same loan without it", name), replay.clone());
+                }
+            }
+        }
+    }
 }
 
 // ---- ownership-transfer histories on every ownable contract -------------------------------------------------------------------
